@@ -541,7 +541,8 @@ class Gen:
                 am = re.match(r"#\[account\((.*)\)\]$", at, re.S)
                 if am:
                     # comments and string contents blanked (mask): translatable clauses contain neither
-                    pend.append((bmask[i + len("#[account("):j - 2], None))
+                    raw = "\n".join(re.sub(r"//.*$", "", ln) for ln in body[i + len("#[account("):j - 2].split("\n"))
+                    pend.append((bmask[i + len("#[account("):j - 2], raw))
                 i = j
                 continue
             fm = re.match(r"pub\s+(\w+)\s*:", bmask[i:])
@@ -598,8 +599,9 @@ class Gen:
             if re.match(r"(Box<)?Signer<", fty):
                 # K5: a field of type Signer<'info> is checked by Anchor to have signed the transaction
                 clauses.append((fname, "type Signer<'info>", f"a.{fname}.info.is_signer"))
-            for (atext, amask) in attrs:
-                for cl in split_top(atext):
+            for (atext, araw) in attrs:
+                raw_clauses = split_top(araw) if araw is not None else []
+                for ci, cl in enumerate(split_top(atext)):
                     c = " ".join(cl.split())
                     c = re.sub(r"^//[^\n]*", "", c).strip()
                     if not c:
@@ -616,9 +618,42 @@ class Gen:
                         out = f"a.{fname}.skey() == {t}" if t else None
                     elif key == "constraint" and val:
                         out = tr(val)
+                    elif key == "seeds" and val and ci < len(raw_clauses):
+                        # K6: `seeds = [e1, e2, ..]` (with `bump`): the account's address is the program-derived address of these seeds
+                        rawval = re.split(r"\s*=\s*", " ".join(raw_clauses[ci].split()), 1)
+                        rawval = rawval[1] if len(rawval) > 1 else ""
+                        mseed = re.fullmatch(r"\[(.*)\]", rawval.strip(), re.S)
+                        parts, okp = [], bool(mseed)
+                        for se in (split_top(mseed.group(1)) if mseed else []):
+                            se = se.strip()
+                            if not se:
+                                continue
+                            m1 = re.fullmatch(r'b"([^"\\]*)"(?:\.as_ref\(\))?', se)
+                            m2 = re.fullmatch(r"(\w+)\.key\(\)\.as_ref\(\)", se)
+                            m3 = re.fullmatch(r"(\w+)\.(\w+)(?:\.key\(\))?\.as_ref\(\)", se)
+                            m4 = re.fullmatch(r"(\w+)\.to_le_bytes\(\)\.as_ref\(\)", se)
+                            m5 = re.fullmatch(r"(\w+)\.(\w+)\.to_le_bytes\(\)\.as_ref\(\)", se)
+                            m6 = re.fullmatch(r"(\w+)\.to_string\(\)\.as_bytes\(\)", se)
+                            if m1:
+                                parts.append("crate::anchor_shim::Seed::Lit(0x" + (m1.group(1).encode().hex() or "0") + "int)")
+                            elif m2 and m2.group(1) in fnames:
+                                parts.append(f"crate::anchor_shim::Seed::Key(a.{m2.group(1)}.skey())")
+                            elif m3 and m3.group(1) in fnames and m3.group(2) != "key":
+                                parts.append(f"crate::anchor_shim::Seed::Key(a.{m3.group(1)}.data.{m3.group(2)})")
+                            elif m4 and m4.group(1) in anames:
+                                used_args.add(m4.group(1)); parts.append(f"crate::anchor_shim::Seed::Le({m4.group(1)} as int)")
+                            elif m5 and m5.group(1) in fnames:
+                                parts.append(f"crate::anchor_shim::Seed::Le(a.{m5.group(1)}.data.{m5.group(2)} as int)")
+                            elif m6 and m6.group(1) in anames:
+                                used_args.add(m6.group(1)); parts.append(f"crate::anchor_shim::Seed::Dec({m6.group(1)} as int)")
+                            else:
+                                okp = False
+                        if okp and parts:
+                            out = f"a.{fname}.skey() == crate::anchor_shim::pda_of(seq![" + ", ".join(parts) + "])"
+                            c0 = " ".join(raw_clauses[ci].split())
                     if out:
                         clauses.append((fname, c0, out))
-                    elif key not in ("mut", "signer"):
+                    elif key not in ("mut", "signer", "bump"):
                         skipped.append(f"{fname}: {c0}")
         used = [(a, t) for (a, t) in args if a in used_args]
         params = "".join(f", {a}: {t}" for a, t in used)
